@@ -702,6 +702,8 @@ func ruleUnaryTable(c *Ctx, rule string) {
 			sort.Strings(parts)
 			term = strings.Join(parts, " ; ")
 		}
+		// s[1:len(s)] is s[1:]
+		term = sliceToEnd.ReplaceAllString(term, "slice($1, $2, nil)")
 		ok := false
 		for _, w := range want[k] {
 			if term == w {
@@ -742,7 +744,8 @@ func ruleCoercions(c *Ctx, rule string) {
 			continue
 		}
 		ob.Pos = c.pos(fn.Pos())
-		mk := func() *PEval { return &PEval{} }
+		// helpers of the repository that a coercion goes through (booleanAsNumber(v.value)) are evaluated, not left as calls
+		mk := func() *PEval { return &PEval{Interpret: c.repoInterp} }
 		recvT := c.NamedType("engine", e.typ)
 		paths, perr := RunPaths(mk, fn, func() []PVal { return []PVal{PStruct{recvT, []PVal{PSym{"v.value"}}}} }, 6)
 		if perr != "" {
@@ -784,3 +787,5 @@ func negGuard(g string) string {
 }
 
 var emptyUnderZeroLength = regexp.MustCompile(`\[\(len\((getString\(X\))\) (<= 0|< 1|== 0)\)\] -> engine\.ProcessValueString\{getString\(X\)\}`)
+
+var sliceToEnd = regexp.MustCompile(`slice\((getString\(X\)), (\d+), len\(getString\(X\)\)\)`)
